@@ -206,6 +206,11 @@ func (r *Runner) buildMsg(s Step) sdk.Msg {
 		return &stakingtypes.MsgDelegate{DelegatorAddress: actor(), ValidatorAddress: val(s.V), Amount: sdk.NewCoin(BondDenom, amt())}
 	case "nundelegate":
 		return &stakingtypes.MsgUndelegate{DelegatorAddress: actor(), ValidatorAddress: val(s.V), Amount: sdk.NewCoin(BondDenom, amt())}
+	case "oper_exit":
+		if s.V < 0 || s.V >= len(w.Vals) {
+			return nil
+		}
+		return &stakingtypes.MsgUndelegate{DelegatorAddress: sdk.AccAddress(w.Vals[s.V].Oper).String(), ValidatorAddress: val(s.V), Amount: sdk.NewCoin(BondDenom, amt())}
 	case "nredelegate":
 		return &stakingtypes.MsgBeginRedelegate{DelegatorAddress: actor(), ValidatorSrcAddress: val(s.V), ValidatorDstAddress: val(s.W), Amount: sdk.NewCoin(BondDenom, amt())}
 	case "set_unbonding":
@@ -511,6 +516,16 @@ func (r *Runner) Step(s Step) {
 	if s.Amt == "bal" && s.A >= 0 && s.A < len(r.W.Actors) && s.V >= 0 && s.V < len(r.W.Vals) {
 		// scripted steps may ask for the current reported balance; the explicit amount is what is recorded
 		s.Amt = r.Cur.Reported(PosKey{r.W.Actors[s.A].String(), r.W.Vals[s.V].Oper.String(), s.Den}).String()
+	}
+	if s.K == "oper_exit" && s.Amt == "" && s.V >= 0 && s.V < len(r.W.Vals) {
+		// the validator operator removes its whole self-delegation; the explicit amount is what is recorded
+		op := r.W.Vals[s.V].Oper
+		s.Amt = "0"
+		if d, err := r.W.App.StakingKeeper.GetDelegation(r.W.Ctx, sdk.AccAddress(op), op); err == nil {
+			if v, err := r.W.App.StakingKeeper.GetValidator(r.W.Ctx, op); err == nil {
+				s.Amt = v.TokensFromShares(d.GetShares()).TruncateInt().String()
+			}
+		}
 	}
 	if r.Hist != nil {
 		r.Hist.Steps = append(r.Hist.Steps, s)
